@@ -571,7 +571,15 @@ static void parse_all(const unsigned char *X, size_t n) {
 /* ------------------------------------------------------------------ stream readers */
 static size_t drain(int fd) { unsigned char tmp[4096]; size_t tot = 0; for (;;) { ssize_t r = recv(fd, tmp, sizeof tmp, MSG_DONTWAIT); if (r <= 0) break; tot += (size_t)r; } return tot; }
 
-/* stream S of sl bytes, caller buffer of n bytes, through FILE (kind 0) or socket (kind 1) */
+/* the socket delivers its bytes in fragments: recv() on frag_fd returns at most the next scripted number of bytes */
+static int frag_fd = -1, frag_n, frag_i; static size_t frag_sz[12];
+ssize_t __real_recv(int fd, void *b, size_t n, int fl);
+ssize_t __wrap_recv(int fd, void *b, size_t n, int fl) {
+	if (fd == frag_fd && frag_i < frag_n && n > 0) { size_t k = frag_sz[frag_i++]; if (k < n) n = k; vh_count("socket_fragments_delivered", 1); }
+	return __real_recv(fd, b, n, fl);
+}
+
+/* stream S of sl bytes, caller buffer of n bytes, through FILE (kind 0) or socket (kind 1; every third case in fragments of 1..40 bytes) */
 static void stream_one(const unsigned char *S, size_t sl, size_t n, int kind) {
 	Hdr h; int pre = ref_prefix(S, sl, &h) == 0, rc; size_t consumed = (size_t)-1, pos = 0; unsigned char *buf; KSI_FTLV f;
 	char rep[1500]; const char *fn = kind ? "KSI_FTLV_socketRead" : "KSI_FTLV_fileRead"; char key[128];
@@ -592,7 +600,9 @@ static void stream_one(const unsigned char *S, size_t sl, size_t n, int kind) {
 		if (socketpair(AF_UNIX, SOCK_STREAM, 0, sv)) die("socketpair");
 		while (w < sl) { ssize_t r = send(sv[0], S + w, sl - w, MSG_NOSIGNAL); if (r <= 0) die("send"); w += (size_t)r; }
 		shutdown(sv[0], SHUT_WR);
+		{ static unsigned turn; if (turn++ % 3 != 2) { int i; frag_fd = sv[1]; frag_i = 0; frag_n = 2 + (int)vh_below(10); for (i = 0; i < frag_n; i++) frag_sz[i] = 1 + vh_below(i % 2 ? 40 : 5); } }
 		rc = KSI_FTLV_socketRead(sv[1], buf, n, &consumed, &f);
+		frag_fd = -1;
 		pos = sl - drain(sv[1]);
 		close(sv[0]); close(sv[1]);
 	}
